@@ -65,7 +65,7 @@ manifest = {
    "enable": "RUSTFLAGS='--cfg jiff_verif' (set in /verif/sim/.cargo/config.toml; jiff is a path dependency on /repo, so every check rebuilds from /repo's working tree)",
    "baseline_off_cmd": "cd /repo && cargo test --workspace --no-fail-fast --offline",
    "source_commits": hook_commits,
-   "add_only": True,
+   "add_only": False,
  },
  "engines": [
    {"name": "jiffsim", "path": "/verif/sim", "serves_properties": [c["property_id"] for c in checks],
